@@ -125,7 +125,9 @@ def stratum_obligations(case):
         for a in atoms:
             uni.add_atom(a)
         universe = consts + atoms
-        prog = req.get_ram(case.text, req.Cfg("initial-ram", ram="initial-ram"), work)
+        # optional AST passes are switched off so that the RAM relations are the source program's relations
+        from engine_r import variants
+        prog = req.get_ram(case.text, req.Cfg("initial-ram", ram="initial-ram", flags=["-z", ",".join(variants.AST_OPTIONAL)]), work)
         for sname, pre, loop, scc, used in find_loops(prog):
             foreign = sorted(u for u in used if not u.startswith("@") and u not in refprog.rels)
             if foreign:
